@@ -156,9 +156,9 @@ func checkDHCP(r *result, msg []byte, s *dhcpSup, exp jmap) {
 	if len(d.Dups) > 0 {
 		r.add("prop", "C03:DHCP4.duplicate", "option(s) %v occur more than once", d.Dups)
 	}
-	got := map[uint8][]byte{}
-	for _, o := range d.Opts {
-		got[o.Code] = o.Data
+	got := map[uint8][]byte{} // RFC 3396 reading: instances of one code are concatenated
+	for c, val := range d.Concat {
+		got[c] = val
 	}
 	for c, val := range s.options {
 		if c == 53 {
@@ -273,6 +273,7 @@ func makeName(r *rand.Rand, n int) []byte {
 }
 
 type builder struct {
+	hist []interface{}
 	r    *result
 	rng  *rand.Rand
 	buf  *buffer
@@ -362,6 +363,9 @@ func (b *builder) step(a jmap) bool {
 		b.stepCheck(a, "EncodeEther", len(b.ether), -1)
 	case "ip4":
 		b.ipSrc, b.ipDst, b.hop = rand4(rng), rand4(rng), uint8(1+rng.Intn(255))
+		if r.Inst%3 != 0 { // instance 1: little-endian accumulation, instance 2: big-endian
+			b.directIP4Header(r.Inst%3 == 1)
+		}
 		b.ip4 = packet.EncodeIP4(b.ether.Payload(), b.hop, b.ipSrc, b.ipDst)
 		b.stepCheck(a, "EncodeIP4", len(b.ip4), b.ip4.TotalLen())
 		b.leaf = "none"
@@ -473,6 +477,51 @@ func (b *builder) step(a jmap) bool {
 		return false
 	}
 	return true
+}
+
+// directIP4Header chooses the destination address so that the one's complement sum of the FINAL IPv4 header (total
+// length and protocol as the rest of the behaviour will set them) needs its second fold (NeedsSecondFold of
+// spec/Wire.tla), under little- or big-endian accumulation: a header checksum routine that folds once is wrong
+// for about 1 header in 27 000 only.
+func (b *builder) directIP4Header(le bool) {
+	total, proto := -1, 253
+	for _, h := range b.hist {
+		m := h.(map[string]interface{})
+		switch jstr(m, "a") {
+		case "udp":
+			proto = 17
+		case "echoin":
+			proto = 1
+		case "appext":
+			if jstr(m, "layer") == "ip4" && jstr(m, "kind") == "echo" {
+				proto = 1
+			}
+		}
+		if a := jstr(m, "a"); (a == "attach" || a == "appext") && jstr(m, "layer") == "ip4" && jstr(jobj(m, "exp"), "res") == "ok" && total < 0 {
+			total = jint(jobj(m, "exp"), "lf")
+		}
+	}
+	if total < 20 {
+		return
+	}
+	hdr := make([]byte, 20)
+	hdr[0], hdr[1] = 0x45, 0xc0
+	binary.BigEndian.PutUint16(hdr[2:4], uint16(total))
+	hdr[8], hdr[9] = b.hop, byte(proto)
+	s, d := b.ipSrc.As4(), b.ipDst.As4()
+	copy(hdr[12:16], s[:])
+	start := int(d[2])<<8 | int(d[3])
+	for k := 0; k < 65536; k++ {
+		v := (start + k) & 0xffff
+		d[2], d[3] = byte(v>>8), byte(v)
+		copy(hdr[16:20], d[:])
+		if needsSecondFold(wordSum(le, hdr)) {
+			b.ipDst = netip.AddrFrom4(d)
+			b.r.add("note", "directed.ip4hdr.hit", "destination %s chosen: the header sum needs the second fold", b.ipDst)
+			return
+		}
+	}
+	b.r.add("note", "directed.ip4hdr.nohit", "no destination found")
 }
 
 func (b *builder) newEcho(n int) {
@@ -977,7 +1026,7 @@ func (b *builder) finalCheck(classify string) {
 
 func runBuild(v jmap, rng *rand.Rand, r *result, sess *packet.Session) {
 	hist := jlist(v, "hist")
-	b := &builder{r: r, rng: rng, sess: sess, buf: newBuffer(jint(v, "cap"))}
+	b := &builder{r: r, rng: rng, sess: sess, buf: newBuffer(jint(v, "cap")), hist: hist}
 	func() {
 		defer func() {
 			if x := recover(); x != nil {
